@@ -645,15 +645,15 @@ class Discharger:
             # (c) try_from(slice).unwrap() into a fixed array
             if x is not None and x.k == "call" and x.a.path in ("std::convert::TryFrom::try_from", "std::convert::TryInto::try_into"):
                 n = None
-                m = re.search(r"\[u8; (\d+)\]", f.locals[c.dest["l"]]["t"])
+                m = re.search(r"\[u8; (\w+)\]", f.locals[c.dest["l"]]["t"])
                 if m:
-                    n = int(m.group(1))
+                    n = int(m.group(1)) if m.group(1).isdigit() else m.group(1)
                 ll = L.Ctx(f, cm.view_info).len_of_operand(x.a.args[0])
                 if n is not None and ll is not None:
-                    goal = L.eq(ll, L.lin_const(n))
+                    goal = L.eq(ll, L.lin_const(n) if isinstance(n, int) else L.lin_var(("constparam", n)))
                     if L.entails(facts + L.nonneg_facts([goal[0]] + [c_[0] for c_ in facts]), goal):
-                        return ("ok", "try_from(&[u8]) into [u8; %d]: length %s == %d follows" % (n, L.lin_repr(ll), n))
-                    return ("fail", "try_from(..).unwrap(): cannot show len %s == %d" % (L.lin_repr(ll), n))
+                        return ("ok", "try_from(&[u8]) into [u8; %s]: length %s == %s follows" % (n, L.lin_repr(ll), n))
+                    return ("fail", "try_from(..).unwrap(): cannot show len %s == %s" % (L.lin_repr(ll), n))
             # (d) constant-argument calls with reviewed contracts
             if x is not None and x.k == "call":
                 r = const_contract(prog, f, x.a)
@@ -939,8 +939,8 @@ def check(ctx, rep, prog, tag):
                 # small private helpers that only hand back views of their arguments (a slice, a tuple
                 # or private struct of slices: `split_sealed(c) -> (&[u8], &[u8])`, `Framed::split(c)`)
                 rt = t.locals[0]["t"]
-                if ("&" in rt or "<'" in rt) and "Result<" not in rt and "Option<" not in rt and t.n <= 16:
-                    return True
+                if ("&" in rt or "<'" in rt) and t.n <= 16:
+                    return True     # also `Option<(&[u8], &[u8])>` / `Result<&[u8], _>`: checked views
                 if os.environ.get("C04_FOLD") and t.n <= int(os.environ.get("C04_FOLD")):
                     return True
                 for a in call.args:
